@@ -132,10 +132,10 @@ def plan(tier, seed):
         desc.append('full algebra size %d: %d terms' % (n, total))
     if tier == 'quick':
         # seed-rotated contiguous slice of the next size (a subset of the thorough tier)
-        total = 1295000
+        total = 2392064
         full.terms(5)
         width = 3000
-        nslices = 400
+        nslices = total // width
         lo = (seed % nslices) * width
         items.append(('full', 6, lo, lo + width))
         desc.append('full algebra size 6: slice [%d, %d) chosen by seed' % (lo, lo + width))
